@@ -5,8 +5,8 @@ from vlib import core, patgen
 LEVEL = "proof"
 FAMILY = "pat"
 
-# known-finding classes (keys as in props/C09.findings.txt / KNOWN_FINDINGS.txt)
-K_G1_NEG = "K15"   # K14 (false positives) is repaired: match_sound holds without a guard
+# no known-finding class is left for C09: match_iff_select holds without a guard (K14 and K15 repaired),
+# every disagreement between the matcher and the defining expression is a violation
 
 
 def T(name):
@@ -162,7 +162,7 @@ def evaluate(ctx, cases, impl, model):
                     n = next(i for i in range(len(Sx)) if i >= len(Sm) or Sm[i] != Sx[i])
                     scorr.append({"pattern": patgen.pattern_text(c["pat"]), "doc": patgen.xml_of(c["top"]), "node": n,
                                   "impl": "".join("1" if x else "0" for x in Sx), "model": "".join("1" if x else "0" for x in Sm), "c": c})
-                ctx.count("inside-guard" if G == "11" else "outside-guard")
+                ctx.count("shape-ok" if G == "11" else "shape-rejected")
         # ---- the oracle: getMatchScore against the defining expression, both from the library
         if Sx is None:
             orc.append({"case": c, "node": None, "what": "the pattern does not evaluate as an expression", "known": None})
@@ -174,14 +174,6 @@ def evaluate(ctx, cases, impl, model):
             what = ("matches, but no ancestor-or-self context selects it" if pos else
                     "does not match, but the expression selects it from an ancestor-or-self")
             known = None
-            if pm is not None:
-                wf, G, Mm, Sm = pm
-                agrees = n < len(Mm) and Mm[n] == M[n] and Sm[n] == Sx[n]
-                # a known finding: outside the guard of match_iff_select_partial, and exactly the
-                # behaviour of the (faithful) model; anything else that fails is a violation
-                # (false negative only: match_sound has no guard, a false positive is always a violation)
-                if agrees and G[0] == "0" and not pos:
-                    known = K_G1_NEG
             orc.append({"case": c, "node": n, "what": what, "known": known})
     ctx.cov["distinct_nontrivial"] = ctx.cov.get("distinct_nontrivial", 0) + len(seen)
     return corr, scorr, orc
@@ -322,8 +314,6 @@ def evaluate_sheets(ctx, cases, model):
                 if pm is None:
                     return None
                 wf, G, Mm, Sm = pm
-                if G[0] == "0" and Mm[i] == actual and Sm[i] == Sx[i] and not actual and Sx[i]:
-                    return K_G1_NEG
                 return None
             if T[i] != Sx[i]:
                 orc.append({"sheet": rep("template match=P %s for the node but the defining expression says %s" % ("fires" if T[i] else "does not fire", Sx[i]), i),
